@@ -2,6 +2,13 @@
  * line protocol of FRAMEWORK.md.  See lean/Driver/C07.lean for the output format.
  *
  *   ins K | rem K | find K | walk in|pre|post | destroy | count
+ *   tN <op>  : the op goes to tree N (0..2, default 0); three trees are alive at once, trees 0
+ *              and 1 with a release callback, tree 2 created with release_cb == NULL (the
+ *              harness frees its removed nodes itself; `destroy` is refused on it unless empty,
+ *              because aatree_destroy would call the NULL callback)
+ *   cmp sign|diff|sat : re-create all trees with that comparator: (k>x)-(k<x) | (int)(k-x)
+ *              (keys limited to |k| < 2^30, others are bad-op) | k-x saturated to
+ *              [INT_MIN, INT_MAX] (returns exactly INT_MIN / INT_MAX for far-apart keys)
  *   reins K : aatree_insert() once more with the node object that is ALREADY linked in the
  *             tree for key K (a present-key insert with the caller's own, linked node);
  *             nothing is called when K is absent (reins=0)
@@ -14,6 +21,7 @@
  */
 #include "hcommon.h"
 #include <stdarg.h>
+#include <limits.h>
 #include <usual/aatree.h>
 
 struct N {
@@ -21,7 +29,11 @@ struct N {
 	long long key;
 };
 
-static struct AATree tree;
+#define NTREES 3
+#define NOCB_TREE 2
+static struct AATree trees[NTREES];
+static struct AATree *cur = &trees[0];	/* tree addressed by the current op */
+#define tree (*cur)
 
 /* growing list of keys */
 struct KL { long long *v; size_t n, cap; };
@@ -83,11 +95,37 @@ static void emit(void)
 static struct KL rel;		/* release_cb calls during the current op */
 static int rel_quiet;
 
+enum { CMP_SIGN, CMP_DIFF, CMP_SAT };
+static int cmp_mode = CMP_SIGN;
+
 static int cmp_cb(uintptr_t value, struct AANode *node)
 {
 	long long k = (long long)(intptr_t)value;
 	struct N *x = (struct N *)node;
-	return (k > x->key) - (k < x->key);
+	long long d;
+	switch (cmp_mode) {
+	case CMP_DIFF:		/* plain difference; keys are limited so that it fits an int */
+		return (int)(k - x->key);
+	case CMP_SAT:		/* difference saturated to the int range */
+		d = k - x->key;
+		if (d < INT_MIN) return INT_MIN;
+		if (d > INT_MAX) return INT_MAX;
+		return (int)d;
+	default:
+		return (k > x->key) - (k < x->key);
+	}
+}
+
+/* nodes removed from the tree without callback: owned by the harness again */
+static struct N **grave;
+static size_t ngrave, capgrave;
+static void grave_add(struct N *x)
+{
+	if (ngrave == capgrave) {
+		capgrave = capgrave ? capgrave * 2 : 64;
+		grave = realloc(grave, capgrave * sizeof(*grave));
+	}
+	grave[ngrave++] = x;
 }
 
 static void release_cb(struct AANode *node, void *arg)
@@ -96,8 +134,17 @@ static void release_cb(struct AANode *node, void *arg)
 	if (arg != &tree) {
 		o_printf("release-bad-arg ");
 	}
+	size_t i;
 	if (!rel_quiet)
 		kl_add(&rel, x->key);
+	/* a node that was handed back to the harness must never show up here; if it does it is
+	 * logged above, and taken off the harness' list so that it is freed only once */
+	for (i = 0; i < ngrave; i++)
+		if (grave[i] == x) {
+			grave[i] = grave[--ngrave];
+			o_printf("release-foreign-node ");
+			break;
+		}
 	/* give the memory back at once: any later touch of the node is an ASan report */
 	free(x);
 }
@@ -219,12 +266,59 @@ static int parse_key(const char *s, long long *out)
 	return 1;
 }
 
+static void collect_ptr_cb(struct AANode *node, void *arg)
+{
+	grave_add((struct N *)node);
+}
+
+/* all trees back to aatree_init state; comparator unchanged */
 static void reset(void)
 {
+	int t;
+	size_t i;
 	rel_quiet = 1;
-	aatree_destroy(&tree);
+	for (t = 0; t < NTREES; t++) {
+		if (t == NOCB_TREE) {
+			/* no callback: collect the nodes (children first), forget the tree */
+			aatree_walk(&trees[t], AA_WALK_POST_ORDER, collect_ptr_cb, NULL);
+		} else {
+			cur = &trees[t];
+			aatree_destroy(&trees[t]);
+		}
+		aatree_init(&trees[t], cmp_cb, t == NOCB_TREE ? NULL : release_cb);
+	}
+	for (i = 0; i < ngrave; i++)
+		free(grave[i]);
+	ngrave = 0;
+	on = 0;
 	rel_quiet = 0;
-	aatree_init(&tree, cmp_cb, release_cb);
+	cur = &trees[0];
+}
+
+/* locate a node by key / by address through the public link fields only (independent of
+ * aatree_search and of the comparator under test): descent first, whole tree as fallback */
+static struct AANode *t_find_all(struct AANode *n, long long k, const struct AANode *p)
+{
+	struct AANode *r;
+	if (aatree_is_nil_node(n)) return NULL;
+	if (p ? n == p : ((struct N *)n)->key == k) return n;
+	r = t_find_all(n->left, k, p);
+	return r ? r : t_find_all(n->right, k, p);
+}
+static struct AANode *t_find_key(long long k)
+{
+	struct AANode *n = tree.root;
+	while (!aatree_is_nil_node(n)) {
+		long long x = ((struct N *)n)->key;
+		if (k == x) return n;
+		n = k < x ? n->left : n->right;
+	}
+	return t_find_all(tree.root, k, NULL);
+}
+static int t_linked(const struct AANode *p, long long k)
+{
+	struct AANode *n = t_find_key(k);
+	return n == p || t_find_all(tree.root, 0, p) != NULL;
 }
 
 static int quiet_ops;	/* perms mode: perform the op, do not render/hash its line */
@@ -239,7 +333,7 @@ static void op_ins(long long k)
 	x->n.left = x->n.right = (struct AANode *)(uintptr_t)0x10;
 	x->n.level = 77;
 	aatree_insert(&tree, (uintptr_t)(intptr_t)k, &x->n);
-	linked = aatree_search(&tree, (uintptr_t)(intptr_t)k) == &x->n;
+	linked = t_linked(&x->n, k);
 	if (!linked)
 		free(x);
 	if (!quiet_ops)
@@ -251,7 +345,7 @@ static void op_reins(long long k)
 {
 	struct AANode *r;
 	rel.n = 0;
-	r = aatree_search(&tree, (uintptr_t)(intptr_t)k);
+	r = t_find_key(k);
 	if (r)
 		aatree_insert(&tree, (uintptr_t)(intptr_t)k, r);
 	if (!quiet_ops)
@@ -260,8 +354,14 @@ static void op_reins(long long k)
 
 static void op_rem(long long k)
 {
+	struct AANode *r = NULL;
 	rel.n = 0;
+	if (cur == &trees[NOCB_TREE])
+		r = t_find_key(k);
 	aatree_remove(&tree, (uintptr_t)(intptr_t)k);
+	/* no callback on this tree: an unlinked node belongs to the harness again */
+	if (r && !t_linked(r, k))
+		grave_add((struct N *)r);
 	mut_line("rem", 0);
 }
 
@@ -295,11 +395,15 @@ static int parse_nat(const char *s, long *out)
 /* perms n ilo ihi jlo jhi: for every insertion order i in [ilo,ihi) and removal order j in
  * [jlo,jhi) of the keys 1..n: fresh tree, insert in order i, remove in order j.  Answers the
  * hashes (observable ## internal) of the op output lines in this order: for each i the n
- * insertion lines and n lines `reins 1` .. `reins n` once, then for each j the n removal lines. */
+ * insertion lines, n lines `reins 1` .. `reins n` and n+1 lines `find 0` .. `find n` once, then
+ * for each j the n removal lines. */
 static int op_perms(char **w)
 {
 	long n, ilo, ihi, jlo, jhi, i, j;
 	int pi[16], pj[16], t;
+	/* saturating comparator: keys 2^31 apart, so that adjacent keys compare as exactly
+	 * INT_MIN and farther ones saturate */
+	long long scale = cmp_mode == CMP_SAT ? 2147483648LL : 1, off = cmp_mode == CMP_SAT ? 3 : 0;
 	if (!parse_nat(w[1], &n) || !parse_nat(w[2], &ilo) || !parse_nat(w[3], &ihi) ||
 	    !parse_nat(w[4], &jlo) || !parse_nat(w[5], &jhi))
 		return 0;
@@ -314,11 +418,22 @@ static int op_perms(char **w)
 			nth_perm(n, j, pj);
 			reset();
 			quiet_ops = (j != jlo);
-			for (t = 0; t < n; t++) op_ins(pi[t]);
-			if (!quiet_ops)
-				for (t = 1; t <= n; t++) op_reins(t);
+			for (t = 0; t < n; t++) op_ins((pi[t] - off) * scale);
+			if (!quiet_ops) {
+				for (t = 1; t <= n; t++) op_reins((t - off) * scale);
+				/* and aatree_search for every key plus one absent key below all */
+				for (t = 0; t <= n; t++) {
+					long long k = (t - off) * scale;
+					struct AANode *r = aatree_search(&tree, (uintptr_t)(intptr_t)k);
+					if (r)
+						o_printf("f=1:%lld", ((struct N *)r)->key);
+					else
+						o_printf("f=0");
+					emit();
+				}
+			}
 			quiet_ops = 0;
-			for (t = 0; t < n; t++) op_rem(pj[t]);
+			for (t = 0; t < n; t++) op_rem((pj[t] - off) * scale);
 		}
 	}
 	hash_mode = 0;
@@ -327,27 +442,47 @@ static int op_perms(char **w)
 	return 1;
 }
 
+static int key_ok(long long k)
+{
+	return cmp_mode != CMP_DIFF || (k > -(1LL << 30) && k < (1LL << 30));
+}
+
 int main(void)
 {
 	char *line;
-	char *w[8];
+	char *wbuf[10];
+	int t;
 	/* line buffered: after a crash every completed op has been reported */
 	setvbuf(stdout, NULL, _IOLBF, 0);
-	aatree_init(&tree, cmp_cb, release_cb);
+	for (t = 0; t < NTREES; t++)
+		aatree_init(&trees[t], cmp_cb, t == NOCB_TREE ? NULL : release_cb);
 	while ((line = hc_line()) != NULL) {
-		int nw = hc_words(line, w, 8);
+		int nw = hc_words(line, wbuf, 10);
+		char **w = wbuf;
 		long long k;
 		rel.n = 0;
-		if (nw == 1 && strcmp(w[0], "#case") == 0) {
+		cur = &trees[0];
+		if (nw >= 2 && w[0][0] == 't' && w[0][1] >= '0' && w[0][1] < '0' + NTREES && w[0][2] == 0) {
+			cur = &trees[w[0][1] - '0'];
+			w++;
+			nw--;
+		}
+		if (nw == 1 && strcmp(w[0], "#case") == 0 && w == wbuf) {
+			cmp_mode = CMP_SIGN;
 			reset();
 			puts("#case");
-		} else if (nw == 2 && strcmp(w[0], "ins") == 0 && parse_key(w[1], &k)) {
+		} else if (nw == 2 && strcmp(w[0], "cmp") == 0 && w == wbuf &&
+			   (!strcmp(w[1], "sign") || !strcmp(w[1], "diff") || !strcmp(w[1], "sat"))) {
+			reset();
+			cmp_mode = !strcmp(w[1], "sign") ? CMP_SIGN : !strcmp(w[1], "diff") ? CMP_DIFF : CMP_SAT;
+			printf("cmp=%s\n", w[1]);
+		} else if (nw == 2 && strcmp(w[0], "ins") == 0 && parse_key(w[1], &k) && key_ok(k)) {
 			op_ins(k);
-		} else if (nw == 2 && strcmp(w[0], "rem") == 0 && parse_key(w[1], &k)) {
+		} else if (nw == 2 && strcmp(w[0], "rem") == 0 && parse_key(w[1], &k) && key_ok(k)) {
 			op_rem(k);
-		} else if (nw == 2 && strcmp(w[0], "reins") == 0 && parse_key(w[1], &k)) {
+		} else if (nw == 2 && strcmp(w[0], "reins") == 0 && parse_key(w[1], &k) && key_ok(k)) {
 			op_reins(k);
-		} else if (nw == 2 && strcmp(w[0], "find") == 0 && parse_key(w[1], &k)) {
+		} else if (nw == 2 && strcmp(w[0], "find") == 0 && parse_key(w[1], &k) && key_ok(k)) {
 			struct AANode *r = aatree_search(&tree, (uintptr_t)(intptr_t)k);
 			if (r)
 				printf("f=1:%lld\n", ((struct N *)r)->key);
@@ -356,10 +491,10 @@ int main(void)
 		} else if (nw == 2 && strcmp(w[0], "walk") == 0 &&
 			   (!strcmp(w[1], "in") || !strcmp(w[1], "pre") || !strcmp(w[1], "post"))) {
 			struct KL l = { NULL, 0, 0 };
-			enum AATreeWalkType t = w[1][1] == 'n' ? AA_WALK_IN_ORDER :
+			enum AATreeWalkType wt = w[1][1] == 'n' ? AA_WALK_IN_ORDER :
 				w[1][1] == 'r' ? AA_WALK_PRE_ORDER : AA_WALK_POST_ORDER;
-			aatree_walk(&tree, t, collect_cb, &l);
-			if (t == AA_WALK_IN_ORDER) {
+			aatree_walk(&tree, wt, collect_cb, &l);
+			if (wt == AA_WALK_IN_ORDER) {
 				/* the order of an in-order walk is pinned by the property */
 				o_printf("w=");
 				put_keys(&l);
@@ -379,12 +514,13 @@ int main(void)
 			}
 			emit();
 			free(l.v);
-		} else if (nw == 1 && strcmp(w[0], "destroy") == 0) {
+		} else if (nw == 1 && strcmp(w[0], "destroy") == 0 &&
+			   !(cur == &trees[NOCB_TREE] && !aatree_is_nil_node(tree.root))) {
 			aatree_destroy(&tree);
 			mut_line("destroy", 1);
 		} else if (nw == 1 && strcmp(w[0], "count") == 0) {
 			printf("c=%d\n", tree.count);
-		} else if (nw == 6 && strcmp(w[0], "perms") == 0 && op_perms(w)) {
+		} else if (nw == 6 && strcmp(w[0], "perms") == 0 && w == wbuf && op_perms(w)) {
 			/* answered */
 		} else {
 			puts("bad-op");
